@@ -395,7 +395,7 @@ def clients(repo, rep):
                 else:
                     rep.ok("R-CLIENT", site, norm_text(node), sample=(n <= 2))
                 rep.fn(mn, q)
-    rep.floor("client root()/minmax() call sites", n, 5)
+    rep.floor("client root()/minmax() call sites", n, 3)
 
 
 def raises(repo, rep, fam):
